@@ -72,6 +72,7 @@ def _task(args):
         core.FLAGS.obligations[k] = 0
     core.FLAGS.check_dtype = flags.get("check_dtype", False)
     core.FLAGS.argsort_all_ties = flags.get("argsort_all_ties", True)
+    core.FLAGS.track_dtypes = flags.get("track_dtypes", False)
     E.loop_budget = flags.get("loop_budget", 2000)
     try:
         body = REGISTRY[key](**params)
